@@ -268,7 +268,7 @@ func RunBridgeHistories(c Ctx, rep *report.Report, rng *chain.Rng, o BOpts, next
 				// ... a burn may name any denom the relayer's symbol table maps to, IBC denoms with their upper-case hash included:
 				// it is credited letter for letter
 				// (a lock claim may also carry the ERC-20 symbol as it is, upper case: nothing in the chain constrains the case)
-				symbol := []string{"eth", "usdc", "dash", "comp", "ceth", "ibc/FEEDFACE", "USDT"}[ev%7]
+				symbol := []string{"eth", "USDT", "dash", "usdc", "comp", "ibc/FEEDFACE", "ceth"}[ev%7]
 				ctype := ethbridgetypes.ClaimType_CLAIM_TYPE_LOCK
 				if ev%7 == 2 || ev%7 == 5 {
 					ctype = ethbridgetypes.ClaimType_CLAIM_TYPE_BURN
